@@ -32,6 +32,7 @@ package p2p
 
 //@ func (*ExchangeServer).requestHandler(serv, stream)
 //@   props C10
+//@   before handleRangeRequest [C10] range-as-requested: arg3 == u64(arg2 + cur(pbreq).Amount) -- the handler judges the range the peer asked for, not a trimmed one: an oversized request must be refused, never served short
 //@   modifies ghost:storeReads, $now
 
 // ---- Exchange client: request planning (C18, C05) and quorum arithmetic (C09)
@@ -130,9 +131,14 @@ package p2p
 //@   modifies $now
 //@   ensures [C13] answers-once: sent("(*Exchange).performRequest.resultCh") == old(sent("(*Exchange).performRequest.resultCh")) + 1
 
+//@ ghost var reqCancels int -- calls of performRequest's request-context cancel function
+//@ field p2p.(*Exchange).performRequest.reqCancel()
+//@   effect reqCancels := old(reqCancels) + 1
+
 //@ func (*Exchange).performRequest(ex, ctx, req)
 //@   props C13
-//@   modifies $now
+//@   modifies $now, ghost:reqCancels
+//@   ensures [C13] requests-cancelled-only-at-exit: reqCancels <= old(reqCancels) + 1 -- the shared request context is cancelled once, by the deferred call: a failed answer of one trusted peer must not abort the requests to the others
 //@   ensures [C13] never-nil-nil: req.Amount > 0 ==> (result1 != nil || len(result0) >= 1)
 //@   ensures [C13] validated: result1 == nil && req.Amount > 0 ==> forall i int :: 0 <= i && i < len(result0) ==> validated(result0[i]) && !result0[i].IsZero() && chainOK(ex.Params.chainID, result0[i].ChainID())
 //@ loop 1:
@@ -140,14 +146,14 @@ package p2p
 
 //@ func (*Exchange).Get(ex, ctx, hash)
 //@   props C13
-//@   modifies $now
+//@   modifies $now, ghost:reqCancels
 //@   ensures [C13] bound: result1 == nil ==> bytes.Equal(result0.Hash(), hash) || (len(result0.Hash()) == 0 && len(hash) == 0)
 //@   ensures [C13] valid: result1 == nil ==> validated(result0) && !result0.IsZero() && chainOK(ex.Params.chainID, result0.ChainID())
 //@   ensures [C13] zero-on-error: result1 != nil ==> result0.IsZero()
 
 //@ func (*Exchange).GetByHeight(ex, ctx, height)
 //@   props C13
-//@   modifies $now
+//@   modifies $now, ghost:reqCancels
 //@   ensures [C13] zero-height: height == 0 ==> result1 != nil
 //@   ensures [C13] valid: result1 == nil ==> validated(result0) && !result0.IsZero() && chainOK(ex.Params.chainID, result0.ChainID())
 //@   ensures [C13] zero-on-error: result1 != nil ==> result0.IsZero()
@@ -282,6 +288,7 @@ package p2p
 //@   ghost xerr error := result1 of call extractHeader #0
 //@   ghost xhdr H := result0 of call extractHeader #0
 //@   modifies $now, pubsub.Message.ValidatorData
+//@   ensures [C11] ignore-only-after-decoding: result == pubsub.ValidationIgnore ==> called(xerr) && xerr == nil -- an undecodable or invalid message is rejected whether or not a verifier is set yet: the wait for the verifier comes after decoding
 //@   ensures [C11] accept-iff: result == pubsub.ValidationAccept <==> (called(vres) && vres == nil)
 //@   ensures [C11] accept-delivers-header: result == pubsub.ValidationAccept ==> xerr == nil && validated(xhdr) && msg.ValidatorData == anyOf(xhdr)
 //@   ensures [C11] verifier-only-after-decode: called(vres) ==> called(xerr) && xerr == nil
